@@ -359,8 +359,19 @@ public:
         constexpr Index max_iter_per_row = 40;
         const Index max_iter = m_n * max_iter_per_row;
 
-        m_T.noalias() = mat;
         m_U.setIdentity();
+        // Scale the matrix so that its largest magnitude is one, as Eigen::RealSchur does:
+        // the iteration compares and multiplies products of entries, which underflow or
+        // overflow for badly scaled input. T is scaled back at the end
+        const Scalar scale = mat.cwiseAbs().maxCoeff();
+        if (scale == Scalar(0))
+        {
+            // Zero matrix: T = 0, U = I
+            m_T.setZero();
+            m_computed = true;
+            return;
+        }
+        m_T.noalias() = mat / scale;
 
         // The matrix m_T is divided in three parts.
         // Rows 0,...,il-1 are decoupled from the rest because m_T(il,il-1) is zero.
@@ -415,6 +426,7 @@ public:
         if (total_iter > max_iter)
             throw std::runtime_error("UpperHessenbergSchur: Schur decomposition failed");
 
+        m_T *= scale;
         m_computed = true;
     }
 
